@@ -43,6 +43,7 @@ with contextlib.redirect_stdout(_io.StringIO()), contextlib.redirect_stderr(_io.
     from mujoco.mjx._src import math as mmath  # noqa: E402
     from mujoco.mjx._src import support as msupport  # noqa: E402
     from mujoco.mjx._src import types as mtypes  # noqa: E402
+    from mujoco.mjx._src import collision_primitive as mcp  # noqa: E402
 import mjbuild_py  # noqa: E402
 
 assert os.path.realpath(mjx.__file__).startswith(os.path.realpath(os.path.join(REPO, "mjx"))), mjx.__file__
@@ -90,6 +91,8 @@ MATH = {
     "inert_mul": ((10, 6), mmath.inert_mul),
     "transform_motion": ((6, 3, 9), lambda v, o, r: mmath.transform_motion(v, o, r.reshape(3, 3))),
     "make_frame": ((3,), mmath.make_frame),
+    "plane_sphere": ((3, 3, 3, 1), lambda n, pp, sp, r: mcp._plane_sphere(n, pp, sp, r[0])),          # pylint: disable=protected-access
+    "sphere_sphere": ((3, 1, 3, 1), lambda p1, r1, p2, r2: mcp._sphere_sphere(p1, r1[0], p2, r2[0])),  # pylint: disable=protected-access
     "muscle_gain_length": ((1, 1, 1), lambda a, b, c: msupport.muscle_gain_length(a[0], b[0], c[0])),
     "muscle_gain": ((1, 1, 2, 1, 9), lambda l, v, lr, a0, p: msupport.muscle_gain(l[0], v[0], lr, a0[0], p)),
     "muscle_bias": ((1, 2, 1, 9), lambda l, lr, a0, p: msupport.muscle_bias(l[0], lr, a0[0], p)),
